@@ -161,7 +161,7 @@ def collect_ns_entities(hs, filters=None):
             pk = par.get("kind")
             if pk not in ("NamespaceDecl", "LinkageSpecDecl"):
                 continue   # class scope (implicitly inline), template pattern, or local
-            key = (n["loc"]["file"], n["loc"].get("offset"))
+            key = cj.loc_key(n)
             if key in out:
                 continue
             out[key] = (d, n)
@@ -172,7 +172,7 @@ def rule_odr(rep, ents):
     rep.rule("C19.odr", "no namespace-scope function, explicit specialisation, out-of-class member or variable with "
                         "external linkage is defined non-inline in a header")
     nfun = nvar = 0
-    for key, (d, n) in sorted(ents.items(), key=lambda kv: (kv[0][0], kv[0][1] or 0)):
+    for key, (d, n) in sorted(ents.items(), key=lambda kv: (kv[0][0] or "", kv[0][1] or 0, kv[0][3] or 0)):
         k = n.get("kind")
         ns, anon = _ns_path(d, n)
         qn = (ns + "::" if ns else "") + n.get("name", "?")
@@ -260,7 +260,7 @@ def _fnptr_type(qual):
 def link_entities(ents):
     """(namespace path list, name, fn-pointer type) for each non-template namespace-scope function."""
     out = []
-    for key, (d, n) in sorted(ents.items(), key=lambda kv: (kv[0][0], kv[0][1] or 0)):
+    for key, (d, n) in sorted(ents.items(), key=lambda kv: (kv[0][0] or "", kv[0][1] or 0, kv[0][3] or 0)):
         if n.get("kind") != "FunctionDecl":
             continue
         ns, anon = _ns_path(d, n)
@@ -413,7 +413,7 @@ def rule_noexc(rep, hs, filters=None):
         blocks_n = {}
         funcs_n = {}
         for fn in _functions_with_bodies(dn):
-            funcs_n[(fn["loc"]["file"], fn["loc"].get("offset"))] = fn
+            funcs_n[cj.loc_key(fn)] = fn
             for c in dn.walk(fn):
                 if c.get("kind") == "CompoundStmt":
                     b = c["range"]["begin"]
@@ -429,7 +429,7 @@ def rule_noexc(rep, hs, filters=None):
                 if skey in seen:
                     continue   # pattern + instantiations share the site
                 seen.add(skey)
-                fkey = (fn["loc"]["file"], fn["loc"].get("offset"))
+                fkey = cj.loc_key(fn)
                 fname = fn.get("name", "?")
                 par = de.parent_of(fn)
                 while par is not None and par.get("kind") not in ("CXXRecordDecl", "ClassTemplateSpecializationDecl", "NamespaceDecl"):
